@@ -9,7 +9,7 @@ V="$(cd "$(dirname "$0")/.." && pwd)"
 D="$V/seeded/$PROP-$NAME"; mkdir -p "$D"
 cp "$SRC/patch.diff" "$D/patch.diff"; cp "$SRC/demo.py" "$D/demo.py" 2>/dev/null; cp "$SRC/notes.md" "$D/notes.md" 2>/dev/null
 W="/var/tmp/hio-seed-$$"; mkdir -p "$W/clean" "$W/mut" "$W/out"
-cp -r /repo/src "$W/clean/src"; cp -r /repo/src "$W/mut/src"
+cp -r /repo/src "$W/clean/src"; cp -r /repo/src "$W/mut/src"; cp -r /repo/tests "$W/clean/tests"; cp -r /repo/tests "$W/mut/tests"
 ( cd "$W/mut" && patch -p1 -s < "$D/patch.diff" ) || { echo "PATCH DOES NOT APPLY"; rm -rf "$W"; exit 3; }
 run_demo() { ( cd "$W/$1" && sed "s#/tmp/seed[0-9]*-$PROP/src#$W/$1/src#g; s#/tmp/seed[0-9]*-$PROP#$W/$1#g; s#/tmp/seed3-$PROP/src#$W/$1/src#g; s#/tmp/seed3-$PROP#$W/$1#g; s#/tmp/seed2-$PROP/src#$W/$1/src#g; s#/tmp/seed2-$PROP#$W/$1#g; s#/tmp/seed-$PROP/src#$W/$1/src#g; s#/tmp/seed-$PROP#$W/$1#g" "$D/demo.py" > "$W/$1/demo.py" && PYTHONPATH="$W/$1/src" PYTHONWARNINGS=ignore TMPDIR="$W/out" timeout 300 /venv/bin/python "$W/$1/demo.py" > "$W/out/demo-$1.log" 2>&1 ); echo $?; }
 if grep -q "def test_" "$D/demo.py" && ! grep -q "__main__" "$D/demo.py"; then
